@@ -994,7 +994,7 @@ def check(prop, tier, only=None):
         jobs.sort(key=lambda j: order[j[0]])
         for result in runner.run_jobs(_dispatch, jobs):
             report.absorb(result)
-    if report.stats["executions"] and report.stats["pops"] == 0:
+    if report.stats["instances"] and report.stats["pops"] == 0 and not report.violations:
         raise runner.HarnessError("the scheduler hook was never reached: is the guarded hook present in the tree?")
     extra = {
         "logical_steps": {"worklist_pops": report.stats["pops"], "requeues": report.stats["requeues"]},
